@@ -16,9 +16,9 @@ import (
 
 type refT struct {
 	m    map[uint64][]byte
-	nb   map[uint64]int        // NO_BROWSE bit of a key: 0 clear, 1 set, 2 unknown (flags are only persisted by sync/defrag)
-	dur  map[uint64]string     // value signature per key at the last sync point ("" = absent)
-	hist map[uint64][]string   // signatures written since the last sync point (incl. "" for a delete)
+	nb   map[uint64]int      // NO_BROWSE bit of a key: 0 clear, 1 set, 2 unknown (flags are only persisted by sync/defrag)
+	dur  map[uint64]string   // value signature per key at the last sync point ("" = absent)
+	hist map[uint64][]string // signatures written since the last sync point (incl. "" for a delete)
 	vol  bool
 	open bool
 }
@@ -132,8 +132,8 @@ func (f *refT) check(t []string, res string) string {
 		for k, v := range f.m {
 			want[k] = sig(v)
 		}
-		if res != renderKV(want) {
-			return fmt.Sprintf("BrowseAll gives {%s}, the map is {%s}", short(res), short(renderKV(want)))
+		if exp := strconv.Itoa(len(f.m)) + " " + renderKV(want); res != exp {
+			return fmt.Sprintf("Count + BrowseAll give {%s}, the map is {%s}", short(res), short(exp))
 		}
 	case "browse":
 		got, ok := parseKV(res)
